@@ -339,7 +339,16 @@ func runCheck(repo, verif, prop, tier, only string, verbose, writeEvidence bool)
 	bounded := runBounded(verif, prop)
 	for _, b := range bounded {
 		if !b.OK {
-			fmt.Printf("UNDECIDED property=%s reason=bounded check of an assumed contract failed: %s: %s\n", prop, b.Name, trunc(b.Out, 200))
+			if strings.Contains(b.Out, "VIOLATION(bounded)") {
+				rp := filepath.Join(replayDir, prop+"-bounded-"+sanitizeFile(b.Name)+".json")
+				jb, _ := json.MarshalIndent(map[string]any{"property": prop, "obligation": "bounded:" + b.Name, "bound": b.Bound, "replay": "failing input found by the bounded differential check on the real code", "replay_output": b.Out}, "", " ")
+				os.WriteFile(rp, jb, 0o644)
+				fmt.Printf("VIOLATION property=%s replay=%s bounded-check=%s: %s\n", prop, rp, b.Name, trunc(b.Out, 300))
+				violations++
+				exit = 1
+				continue
+			}
+			fmt.Printf("UNDECIDED property=%s reason=bounded check could not run or an assumed contract failed: %s: %s\n", prop, b.Name, trunc(b.Out, 200))
 			if exit == 0 {
 				exit = 3
 			}
@@ -489,11 +498,36 @@ func runBounded(verif, prop string) []boundedRes {
 	if err != nil {
 		return out
 	}
-	var idx map[string][]struct{ Name, Bin, Bound string }
+	var idx map[string][]struct {
+		Name, Bin, Bound string
+		Overlay          *struct{ Tmpl, Pkg, Run string }
+	}
 	if json.Unmarshal(b, &idx) != nil {
 		return out
 	}
 	for _, e := range idx[prop] {
+		if e.Overlay != nil {
+			// bounded stand-in that exercises the real package: a test injected through go test -overlay
+			tb, err := os.ReadFile(filepath.Join(verif, e.Overlay.Tmpl))
+			if err != nil {
+				out = append(out, boundedRes{Name: e.Name, Bound: e.Bound, OK: false, Out: "template missing"})
+				continue
+			}
+			eng := &Engine{repo: "/repo", verifDir: verif}
+			if r := os.Getenv("GOVC_REPO"); r != "" {
+				eng.repo = r
+			}
+			failed, o := runOverlayTest(eng, e.Overlay.Pkg, "zz_verif_bounded_test.go", string(tb), e.Overlay.Run)
+			passed := !failed && strings.Contains(o, "ok  \t")
+			var keep []string
+			for _, l := range strings.Split(o, "\n") {
+				if strings.Contains(l, "VIOLATION") || strings.Contains(l, "bounded") || strings.HasPrefix(l, "ok") || strings.HasPrefix(l, "FAIL") {
+					keep = append(keep, strings.TrimSpace(l))
+				}
+			}
+			out = append(out, boundedRes{Name: e.Name, Bound: e.Bound, OK: passed, Out: trunc2(strings.Join(keep, " | "), 1500)})
+			continue
+		}
 		cmd := exec.Command(filepath.Join(verif, e.Bin))
 		o, err := cmd.CombinedOutput()
 		out = append(out, boundedRes{Name: e.Name, Bound: e.Bound, OK: err == nil, Out: strings.TrimSpace(string(o))})
